@@ -6,8 +6,9 @@ Hand transcription of the decisions gomacro itself takes in
 * `fast/index.go`   `vectorIndex` (l. 68-78: every index is converted to `int` with `Comp.convert`),
                     `stringIndex` (constant string + constant index is folded at compile time, the
                     panic is recovered and turned into a compile error), `vectorPlace`,
-                    `vectorPtrPlace` (REPAIRED form: same conversion as `vectorIndex`,
-                    fixes/C08-integer-index-kinds.diff),
+                    `vectorPtrPlace` (repaired: same conversion as `vectorIndex`; the unrepaired form
+                    is kept as `indexToIntStrict`), `fast/convert.go` `Comp.convert` of a typed constant
+                    (with / without the representability check of `convertNumericConst`),
 * `fast/slice.go`   `SliceExpr`, `sliceIndex` (REPAIRED form, same diff), `slice2`, `sliceString`, `slice3`,
 * `fast/compositelit.go` `compositeLitElements` (running index, duplicate / negative / out-of-bounds
                     checks, size = max index + 1) and the placement loops of `compositeLitArray` /
@@ -79,14 +80,28 @@ inductive Outcome (α : Type) where
   | cerr
   deriving Repr, DecidableEq
 
+/-- which form of the code is running (read off the source by the extractor):
+    `converts`    : the call site converts an index of any integer kind with `Comp.convert(idx, int)`
+                    (`vectorIndex` always; `vectorPlace`, `vectorPtrPlace`, `sliceIndex` since the repair);
+    `constChecks` : `Comp.convert` of a typed CONSTANT checks that the value is representable in the
+                    target type (`convertNumericConst`, /repo 457e90b) instead of wrapping it. -/
+structure Conv where
+  converts : Bool
+  constChecks : Bool
+  deriving Repr, DecidableEq
+
 /-- `Comp.convert(idx, int)` as used by `vectorIndex` (and, repaired, by `vectorPlace`,
     `vectorPtrPlace`, `sliceIndex`): an untyped constant goes through `ConstTo(int)` (overflow =
-    compile error); a typed constant is converted at compile time, a variable at run time, both with
-    `reflect.Value.Convert` = wrap.  Result = the `int` the run-time code indexes with. -/
-def indexToInt (a : Arg) : Option Int :=
+    compile error); a typed constant is converted at compile time -- with `constChecks` it must be
+    representable as `int` (else compile error), without it is wrapped by `reflect.Value.Convert`;
+    a variable is converted at run time = wrap.  Result = the `int` the run-time code indexes with. -/
+def indexToInt (constChecks : Bool) (a : Arg) : Option Int :=
   match a.kind with
   | .untyped => if minInt ≤ a.val ∧ a.val ≤ maxInt then some a.val else none
-  | _ => some (wrapInt a.val)
+  | _ =>
+    if a.const ∧ constChecks then
+      (if minInt ≤ a.val ∧ a.val ≤ maxInt then some a.val else none)
+    else some (wrapInt a.val)
 
 /-- the UNREPAIRED form of `vectorPlace` / `vectorPtrPlace` / `sliceIndex`: a constant goes through
     `ConstTo(int)` (a typed constant of another type is an error), a variable must be assignable to
@@ -97,8 +112,8 @@ def indexToIntStrict (a : Arg) : Option Int :=
   | .int => some (wrapInt a.val)
   | _ => none
 
-def indexConv (converts : Bool) (a : Arg) : Option Int :=
-  if converts then indexToInt a else indexToIntStrict a
+def indexConv (cv : Conv) (a : Arg) : Option Int :=
+  if cv.converts then indexToInt cv.constChecks a else indexToIntStrict a
 
 /-- `reflect.Value.Index(i)` / native `str[i]` -/
 def indexRun (len : Nat) (i : Int) : Option Nat :=
@@ -111,8 +126,8 @@ inductive Cont where
 
 /-- `Comp.indexExpr` -> `vectorIndex`/`stringIndex` (reads) and `IndexPlace` -> `vectorPlace` /
     `vectorPtrPlace` (writes, `write = true`): the element position read or written. -/
-def indexOutcome (converts : Bool) (c : Cont) (len : Nat) (write : Bool) (a : Arg) : Outcome Nat :=
-  match indexConv converts a with
+def indexOutcome (cv : Conv) (c : Cont) (len : Nat) (write : Bool) (a : Arg) : Outcome Nat :=
+  match indexConv cv a with
   | none => .cerr
   | some i =>
     match c with
@@ -134,8 +149,8 @@ def indexOutcome (converts : Bool) (c : Cont) (len : Nat) (write : Bool) (a : Ar
 
 /-- `sliceIndex` (repaired): constant -> `int` (overflow: error), negative constant: error;
     variable of any integer kind -> converted at run time. -/
-def sliceIndexConv (converts : Bool) (a : Arg) : Option Int :=
-  match indexConv converts a with
+def sliceIndexConv (cv : Conv) (a : Arg) : Option Int :=
+  match indexConv cv a with
   | none => none
   | some v => if a.const ∧ v < 0 then none else some v
 
@@ -173,9 +188,9 @@ structure SliceIn where
   three : Bool
   deriving Repr
 
-def optConv (converts : Bool) : Option Arg → Option (Option Int)
+def optConv (cv : Conv) : Option Arg → Option (Option Int)
   | none => some none
-  | some a => (sliceIndexConv converts a).map some
+  | some a => (sliceIndexConv cv a).map some
 
 def allConst : Option Arg → Bool
   | none => true
@@ -195,8 +210,8 @@ def sliceRun (c : Cont) (len cap : Nat) (three : Bool) (lo hi max : Option Int) 
     else reflSlice (capOf c len cap) i j
 
 /-- `Comp.SliceExpr` -/
-def sliceOutcome (converts : Bool) (s : SliceIn) : Outcome SliceRes :=
-  match optConv converts s.lo, optConv converts s.hi, optConv converts s.max with
+def sliceOutcome (cv : Conv) (s : SliceIn) : Outcome SliceRes :=
+  match optConv cv s.lo, optConv cv s.hi, optConv cv s.max with
   | some lo, some hi, some max =>
     if s.three ∧ (s.hi.isNone ∨ s.max.isNone) then .cerr      -- "final index required in 3-index slice"
     else if s.three ∧ (s.cont = .str ∨ s.cont = .cstr) then .cerr  -- "3-index slice of string"
